@@ -38,10 +38,10 @@ func routeInstances(tier string) []explore.Params {
 		// (per broker: 300 accepts waiting on the plugin's, 300 dialled streams parked on the host's)
 		var pats []string
 		for i := 0; i < 300; i++ {
-			pats = append(pats, "hA0")
+			pats = append(pats, "hA1000") // all accepts are waiting before the first dial
 		}
 		for i := 0; i < 300; i++ {
-			pats = append(pats, "pD0")
+			pats = append(pats, "pD1000") // all dialled streams are parked before the first accept
 		}
 		return []explore.Params{{"pat": strings.Join(pats, ",")}}
 	}
